@@ -109,7 +109,7 @@ PROPS["C31"] = {
 }
 
 PROPS["C35"] = {
-    "standin": ["standin_pagination"],
+    "standin": ["standin_pagination", "standin_pagination_e2e"],
     "verus": [],
     "kani": ["wire"],
     "level": "proof",
